@@ -334,12 +334,15 @@ func checkC16(R *Run) {
 					dup := false
 					closed := true
 					var odd []string
-					for _, st := range tc.body {
+					for _, st := range flattenExpansion(tc.body) {
 						key, cval, cname, ok := parseFlagIf(hp, st, recvName)
 						if !ok {
 							rows, isLoop := parseFlagLoop(hp, st, recvName)
 							if !isLoop {
 								rows, isLoop = parseFlagMapLoop(hp, st, recvName, nil)
+							}
+							if !isLoop {
+								rows, isLoop = parseFlagIndexLoop(hp, st, recvName)
 							}
 							if isLoop {
 								for _, r := range rows {
@@ -403,8 +406,24 @@ func checkC16(R *Run) {
 			}
 			return true
 		})
-		if lit == nil {
-			R.und("access-tables", "AccessBitmap.MarshalYAML", P.pos(mm.Pos()), "does not return an accessFlags literal (accepted idiom)")
+		if rows, ok := parseSaveTableLoop(hp, mm); lit == nil && ok {
+			// the table-driven form: for _, e := range TABLE { *e.field(&flags) = bits.IsSet(e.access) }
+			seen := map[string]bool{}
+			for _, r := range rows {
+				f, n := r.field, r.bit
+				if seen[f] {
+					R.bad("access-tables", "MarshalYAML: field "+f, P.pos(mm.Pos()), "field assigned twice")
+				}
+				seen[f] = true
+				save[fieldKey[f]] = n
+			}
+			for f := range fieldKey {
+				if !seen[f] {
+					R.bad("access-tables", "MarshalYAML: field "+f, P.pos(mm.Pos()), "accessFlags."+f+" is never filled in: the privilege is lost on save")
+				}
+			}
+		} else if lit == nil {
+			R.und("access-tables", "AccessBitmap.MarshalYAML", P.pos(mm.Pos()), "does not return an accessFlags literal (accepted idioms: the literal `FIELD: bits.IsSet(CONST)`, or a loop over a package-level table of (CONST, func(f *accessFlags) *bool { return &f.FIELD }) pairs that assigns *e.field(&flags) = bits.IsSet(e.access))")
 		} else {
 			recvName := mm.Recv.List[0].Names[0].Name
 			// a local bound once to the method value `bits.IsSet` stands for it
@@ -1437,4 +1456,364 @@ func (R *Run) ruleLoadIndependent() {
 	R.check(len(carried) == 0, "load-independent", fname(fn)+": loop over the account files", P.pos(fn.Pos()), "every file is decoded into a fresh account",
 		"state survives from one account file to the next: "+strings.Join(carried, "; ")+" — the named-flag decoder only sets bits, so the later account inherits the earlier one's privileges")
 	R.floor("load-independent", 1)
+}
+
+type saveRow struct {
+	field string
+	bit   int
+}
+
+// parseSaveTableLoop: MarshalYAML of the form
+//
+//	var flags accessFlags
+//	for _, e := range TABLE { *e.F(&flags) = recv.IsSet(e.A) }
+//	return flags, nil
+//
+// with TABLE a package-level variable declared once as a literal of pairs (CONST, func(p *accessFlags) *bool { return &p.FIELD }),
+// used nowhere else. Closed world: every element must have exactly that form.
+func parseSaveTableLoop(p *packages.Package, mm *ast.FuncDecl) ([]saveRow, bool) {
+	if mm.Recv == nil || len(mm.Recv.List) == 0 || len(mm.Recv.List[0].Names) == 0 {
+		return nil, false
+	}
+	recv := mm.Recv.List[0].Names[0].Name
+	var rs *ast.RangeStmt
+	nRange := 0
+	ast.Inspect(mm.Body, func(n ast.Node) bool {
+		if r, ok := n.(*ast.RangeStmt); ok {
+			rs = r
+			nRange++
+		}
+		return true
+	})
+	if rs == nil || nRange != 1 || rs.Value == nil || len(rs.Body.List) != 1 {
+		return nil, false
+	}
+	if k := identOf(rs.Key); rs.Key != nil && (k == nil || k.Name != "_") {
+		return nil, false
+	}
+	elem := identOf(rs.Value)
+	tbl := identOf(ast.Unparen(rs.X))
+	if elem == nil || tbl == nil {
+		return nil, false
+	}
+	tv, _ := p.TypesInfo.Uses[tbl].(*types.Var)
+	if tv == nil || tv.Parent() != p.Types.Scope() {
+		return nil, false
+	}
+	// the loop body
+	as, ok := rs.Body.List[0].(*ast.AssignStmt)
+	if !ok || as.Tok != token.ASSIGN || len(as.Lhs) != 1 || len(as.Rhs) != 1 {
+		return nil, false
+	}
+	star, ok := ast.Unparen(as.Lhs[0]).(*ast.StarExpr)
+	if !ok {
+		return nil, false
+	}
+	fcall, ok := ast.Unparen(star.X).(*ast.CallExpr)
+	if !ok || len(fcall.Args) != 1 {
+		return nil, false
+	}
+	fsel, ok := ast.Unparen(fcall.Fun).(*ast.SelectorExpr)
+	if !ok || identOf(fsel.X) == nil || p.TypesInfo.Uses[identOf(fsel.X)] != p.TypesInfo.Defs[elem] {
+		return nil, false
+	}
+	addr, ok := ast.Unparen(fcall.Args[0]).(*ast.UnaryExpr)
+	if !ok || addr.Op != token.AND || identOf(addr.X) == nil {
+		return nil, false
+	}
+	target := p.TypesInfo.Uses[identOf(addr.X)]
+	if target == nil || !strings.HasSuffix(target.Type().String(), ".accessFlags") {
+		return nil, false
+	}
+	icall, ok := ast.Unparen(as.Rhs[0]).(*ast.CallExpr)
+	if !ok || len(icall.Args) != 1 {
+		return nil, false
+	}
+	isel, ok := ast.Unparen(icall.Fun).(*ast.SelectorExpr)
+	if !ok || isel.Sel.Name != "IsSet" || identOf(isel.X) == nil || identOf(isel.X).Name != recv {
+		return nil, false
+	}
+	asel, ok := ast.Unparen(icall.Args[0]).(*ast.SelectorExpr)
+	if !ok || identOf(asel.X) == nil || p.TypesInfo.Uses[identOf(asel.X)] != p.TypesInfo.Defs[elem] {
+		return nil, false
+	}
+	// what is returned is the struct that was filled
+	okRet := true
+	ast.Inspect(mm.Body, func(n ast.Node) bool {
+		if r, isR := n.(*ast.ReturnStmt); isR && len(r.Results) > 0 {
+			if id := identOf(ast.Unparen(r.Results[0])); id == nil || p.TypesInfo.Uses[id] != target {
+				okRet = false
+			}
+		}
+		return true
+	})
+	if !okRet {
+		return nil, false
+	}
+	// the table
+	var lit *ast.CompositeLit
+	uses := 0
+	for _, f := range p.Syntax {
+		ast.Inspect(f, func(n ast.Node) bool {
+			switch x := n.(type) {
+			case *ast.ValueSpec:
+				for i, nm := range x.Names {
+					if p.TypesInfo.Defs[nm] == types.Object(tv) && i < len(x.Values) {
+						lit, _ = x.Values[i].(*ast.CompositeLit)
+					}
+				}
+			case *ast.Ident:
+				if p.TypesInfo.Uses[x] == types.Object(tv) {
+					uses++
+				}
+			}
+			return true
+		})
+	}
+	if lit == nil || uses != 1 {
+		return nil, false
+	}
+	var stt *types.Struct
+	switch t := tv.Type().Underlying().(type) {
+	case *types.Slice:
+		stt, _ = t.Elem().Underlying().(*types.Struct)
+	case *types.Array:
+		stt, _ = t.Elem().Underlying().(*types.Struct)
+	}
+	if stt == nil || stt.NumFields() != 2 {
+		return nil, false
+	}
+	idx := func(name string) int {
+		for i := 0; i < stt.NumFields(); i++ {
+			if stt.Field(i).Name() == name {
+				return i
+			}
+		}
+		return -1
+	}
+	ai, fi := idx(asel.Sel.Name), idx(fsel.Sel.Name)
+	if ai < 0 || fi < 0 || ai == fi {
+		return nil, false
+	}
+	var rows []saveRow
+	for _, el := range lit.Elts {
+		cl, isCL := el.(*ast.CompositeLit)
+		if !isCL || len(cl.Elts) != 2 {
+			return nil, false
+		}
+		vals := make([]ast.Expr, 2)
+		for i, fe := range cl.Elts {
+			if kv, isKV := fe.(*ast.KeyValueExpr); isKV {
+				k := identOf(kv.Key)
+				if k == nil || idx(k.Name) < 0 {
+					return nil, false
+				}
+				vals[idx(k.Name)] = kv.Value
+			} else {
+				vals[i] = fe
+			}
+		}
+		if vals[ai] == nil || vals[fi] == nil {
+			return nil, false
+		}
+		n, _, okN := constIntOf(p, vals[ai])
+		fl, isFL := ast.Unparen(vals[fi]).(*ast.FuncLit)
+		if !okN || !isFL || fl.Type.Params == nil || len(fl.Type.Params.List) != 1 || len(fl.Type.Params.List[0].Names) != 1 || len(fl.Body.List) != 1 {
+			return nil, false
+		}
+		ret, isRet := fl.Body.List[0].(*ast.ReturnStmt)
+		if !isRet || len(ret.Results) != 1 {
+			return nil, false
+		}
+		ad, isAd := ast.Unparen(ret.Results[0]).(*ast.UnaryExpr)
+		if !isAd || ad.Op != token.AND {
+			return nil, false
+		}
+		fs, isFS := ast.Unparen(ad.X).(*ast.SelectorExpr)
+		if !isFS || identOf(fs.X) == nil || p.TypesInfo.Uses[identOf(fs.X)] != p.TypesInfo.Defs[fl.Type.Params.List[0].Names[0]] {
+			return nil, false
+		}
+		rows = append(rows, saveRow{fs.Sel.Name, n})
+	}
+	return rows, len(rows) > 0
+}
+
+// flattenExpansion: the statements of a case body without what an expansion of the normalised view put around them —
+// result variables, the binding of parameters, `_ = x` markers, the labelled `switch { default: … }` and its breaks.
+func flattenExpansion(list []ast.Stmt) []ast.Stmt {
+	var out []ast.Stmt
+	for _, st := range list {
+		switch x := st.(type) {
+		case *ast.DeclStmt:
+			if gd, ok := x.Decl.(*ast.GenDecl); ok && gd.Tok == token.VAR {
+				all := true
+				for _, sp := range gd.Specs {
+					vs, isVS := sp.(*ast.ValueSpec)
+					if !isVS {
+						all = false
+						continue
+					}
+					for _, nm := range vs.Names {
+						if !strings.HasPrefix(nm.Name, "__r") && !strings.HasPrefix(nm.Name, "__p") && !strings.HasPrefix(nm.Name, "__v") {
+							all = false
+						}
+					}
+				}
+				if all {
+					continue
+				}
+			}
+		case *ast.AssignStmt:
+			all := true
+			for _, l := range x.Lhs {
+				id := identOf(l)
+				if id == nil || !(id.Name == "_" || strings.HasPrefix(id.Name, "__p") || strings.HasPrefix(id.Name, "__v")) {
+					all = false
+				}
+			}
+			if all {
+				continue
+			}
+		case *ast.LabeledStmt:
+			if sw, ok := x.Stmt.(*ast.SwitchStmt); ok && strings.HasPrefix(x.Label.Name, "__L") && sw.Tag == nil && sw.Init == nil && len(sw.Body.List) == 1 {
+				if cc, isCC := sw.Body.List[0].(*ast.CaseClause); isCC && cc.List == nil {
+					out = append(out, flattenExpansion(cc.Body)...)
+					continue
+				}
+			}
+		case *ast.BranchStmt:
+			if x.Tok == token.BREAK && x.Label != nil && strings.HasPrefix(x.Label.Name, "__L") {
+				continue
+			}
+		case *ast.EmptyStmt:
+			continue
+		case *ast.BlockStmt:
+			if len(x.List) == 0 {
+				continue
+			}
+		}
+		out = append(out, st)
+	}
+	return out
+}
+
+// parseFlagIndexLoop: `for bit, key := range NAMES { [if key == "" { continue }] if f, ok := v[key].(bool); ok && f { bits.Set(bit) } }`
+// with NAMES a package-level array / slice of strings declared once as an index-keyed literal `CONST: "Name"` and used
+// nowhere but in range statements: row (Name, CONST) for every element with a name.
+func parseFlagIndexLoop(p *packages.Package, st ast.Stmt, recv string) (rows [][3]any, ok bool) {
+	rs, isRange := st.(*ast.RangeStmt)
+	if !isRange || rs.Key == nil || rs.Value == nil {
+		return nil, false
+	}
+	bitID, keyID := identOf(rs.Key), identOf(rs.Value)
+	tbl := identOf(ast.Unparen(rs.X))
+	if bitID == nil || keyID == nil || tbl == nil || bitID.Name == "_" || keyID.Name == "_" {
+		return nil, false
+	}
+	tv, _ := p.TypesInfo.Uses[tbl].(*types.Var)
+	if tv == nil || tv.Parent() != p.Types.Scope() {
+		return nil, false
+	}
+	var elemT types.Type
+	switch t := tv.Type().Underlying().(type) {
+	case *types.Slice:
+		elemT = t.Elem()
+	case *types.Array:
+		elemT = t.Elem()
+	}
+	if b, isB := elemT.(*types.Basic); elemT == nil || !isB || b.Kind() != types.String {
+		return nil, false
+	}
+	body := rs.Body.List
+	// optional skip of the unnamed bits
+	if len(body) == 2 {
+		is, isIf := body[0].(*ast.IfStmt)
+		if !isIf || is.Init != nil || is.Else != nil || len(is.Body.List) != 1 {
+			return nil, false
+		}
+		be, isBE := is.Cond.(*ast.BinaryExpr)
+		br, isBr := is.Body.List[0].(*ast.BranchStmt)
+		if !isBE || be.Op != token.EQL || !isBr || br.Tok != token.CONTINUE || br.Label != nil {
+			return nil, false
+		}
+		x, y := identOf(ast.Unparen(be.X)), ast.Unparen(be.Y)
+		if lit, isLit := y.(*ast.BasicLit); x == nil || p.TypesInfo.Uses[x] != p.TypesInfo.Defs[keyID] || !isLit || lit.Value != `""` {
+			return nil, false
+		}
+		body = body[1:]
+	}
+	skipsUnnamed := len(rs.Body.List) == 2
+	if len(body) != 1 {
+		return nil, false
+	}
+	flagKeyOf = func(e ast.Expr) (string, bool) {
+		id := identOf(ast.Unparen(e))
+		return "KEY", id != nil && p.TypesInfo.Uses[id] == p.TypesInfo.Defs[keyID]
+	}
+	flagValOf = func(e ast.Expr) (string, bool) {
+		id := identOf(ast.Unparen(e))
+		return "BIT", id != nil && p.TypesInfo.Uses[id] == p.TypesInfo.Defs[bitID]
+	}
+	k, _, v, okIf := parseFlagIf(p, body[0], recv)
+	flagKeyOf, flagValOf = nil, nil
+	if !okIf || k != "KEY" || v != "BIT" {
+		return nil, false
+	}
+	var lit *ast.CompositeLit
+	uses := 0
+	for _, f := range p.Syntax {
+		ast.Inspect(f, func(n ast.Node) bool {
+			switch x := n.(type) {
+			case *ast.ValueSpec:
+				for i, nm := range x.Names {
+					if p.TypesInfo.Defs[nm] == types.Object(tv) && i < len(x.Values) {
+						lit, _ = x.Values[i].(*ast.CompositeLit)
+					}
+				}
+			case *ast.RangeStmt:
+				if id := identOf(ast.Unparen(x.X)); id != nil && p.TypesInfo.Uses[id] == types.Object(tv) {
+					uses--
+				}
+			case *ast.Ident:
+				if p.TypesInfo.Uses[x] == types.Object(tv) {
+					uses++
+				}
+			}
+			return true
+		})
+	}
+	if lit == nil || uses != 0 {
+		return nil, false
+	}
+	maxIdx := -1
+	for _, el := range lit.Elts {
+		kv, isKV := el.(*ast.KeyValueExpr)
+		if !isKV {
+			return nil, false // positional: the index is not spelled with the privilege constant
+		}
+		n, cname, okN := constIntOf(p, kv.Key)
+		sl, isLit := ast.Unparen(kv.Value).(*ast.BasicLit)
+		if !okN || !isLit || sl.Kind != token.STRING {
+			return nil, false
+		}
+		name, err := strconv.Unquote(sl.Value)
+		if err != nil {
+			return nil, false
+		}
+		if name == "" {
+			if !skipsUnnamed {
+				return nil, false
+			}
+			continue
+		}
+		if n > maxIdx {
+			maxIdx = n
+		}
+		rows = append(rows, [3]any{name, n, cname})
+	}
+	if !skipsUnnamed && len(rows) != maxIdx+1 {
+		// a bit without a name has the key "": without the skip an entry `"": true` of the file would grant it
+		return nil, false
+	}
+	return rows, len(rows) > 0
 }
